@@ -192,37 +192,16 @@ func extract(repo, leanDir string) {
 		note(f.Body("", "XXHash") == "{ switch v := i.(type) { case string: return xxhash.Sum64String(v) default: return xxhash.Sum64(ToBytes(i)) } }", "XXHash") &&
 		note(f.Body("ReMap", "Numbs") == "{ return r.numbs }", "Numbs")
 
-	// ---- ToBytes arms
-	var tbArms []string
-	tbDefaultPanics := false
-	if fd := f.Func("", "ToBytes"); fd != nil && fd.Body != nil && len(fd.Body.List) == 1 {
-		if ts, ok := fd.Body.List[0].(*ast.TypeSwitchStmt); ok {
-			for _, cl := range ts.Body.List {
-				cc := cl.(*ast.CaseClause)
-				if cc.List == nil {
-					tbDefaultPanics = len(cc.Body) == 1 && strings.HasPrefix(f.Src(cc.Body[0]), "panic(")
-					continue
-				}
-				for _, te := range cc.List {
-					switch tn := f.Src(te); tn {
-					case "string":
-						tbArms = append(tbArms, "str")
-					case "[]byte":
-						tbArms = append(tbArms, "bytes")
-					case "Bs":
-						tbArms = append(tbArms, "bs")
-					default:
-						if at, known := armTypes[tn]; known {
-							tbArms = append(tbArms, at.kt)
-						} else {
-							tbArms = append(tbArms, "other")
-						}
-					}
-				}
-			}
-		}
+	// ---- ToBytes: the WHOLE canonical body must be one of the two known shapes
+	hitHashable := false
+	toBytesShape := false
+	switch f.Canon(f.Func("", "ToBytes")) {
+	case toBytesToday:
+		toBytesShape = true
+	case toBytesWithHitGroup:
+		toBytesShape, hitHashable = true, true
 	}
-	xhashShape = xhashShape && note(tbDefaultPanics, "ToBytes:default")
+	note(toBytesShape, "ToBytes: unclassified body")
 
 	// ---- containers
 	containers := true
@@ -328,12 +307,9 @@ func extract(repo, leanDir string) {
 	for _, a := range arms {
 		armList = append(armList, "."+a)
 	}
-	var tbList []string
-	for _, a := range tbArms {
-		tbList = append(tbList, "."+a)
-	}
-	fmt.Fprintf(&b, "def facts : Nv.C17.Facts := ⟨%s, %s, [%s], %s, %s, [%s], %s, %s⟩\n\n", gofacts.LeanBool(newShape), gofacts.LeanBool(searchShape),
-		strings.Join(armList, ", "), gofacts.LeanBool(simpleShape), gofacts.LeanBool(xhashShape), strings.Join(tbList, ", "), gofacts.LeanBool(containers), gofacts.LeanBool(translated))
+	fmt.Fprintf(&b, "/-- `ToBytes` has a `HitGroup` arm: a HitGroup-only key can be hashed (xxhash routing) -/\ndef hitHashable : Bool := %s\n", gofacts.LeanBool(hitHashable))
+	fmt.Fprintf(&b, "def facts : Nv.C17.Facts := ⟨%s, %s, [%s], %s, %s, %s, %s, %s⟩\n\n", gofacts.LeanBool(newShape), gofacts.LeanBool(searchShape),
+		strings.Join(armList, ", "), gofacts.LeanBool(simpleShape), gofacts.LeanBool(xhashShape), gofacts.LeanBool(toBytesShape), gofacts.LeanBool(containers), gofacts.LeanBool(translated))
 	b.WriteString(lean)
 	// fall-backs keep the oracle compiling when a kernel left the translatable subset (kernelsTranslated = false breaks the tie)
 	fallback := map[string]string{
@@ -362,6 +338,6 @@ func extract(repo, leanDir string) {
 		fmt.Fprintln(os.Stderr, err)
 		os.Exit(2)
 	}
-	fmt.Printf("extract C17: cfg=⟨lastForcedMax=%v, pred=%s⟩ arms=%v shapes(new,search,simple,xhash,containers)=%v,%v,%v,%v,%v kernels=%v errs=%v unclassified=%v\n",
+	fmt.Printf("extract C17: cfg=⟨lastForcedMax=%v, pred=%s⟩ hitHashable="+gofacts.LeanBool(hitHashable)+" toBytes="+gofacts.LeanBool(toBytesShape)+" arms=%v shapes(new,search,simple,xhash,containers)=%v,%v,%v,%v,%v kernels=%v errs=%v unclassified=%v\n",
 		lastForced, pred, arms, newShape, searchShape, simpleShape, xhashShape, containers, translated, errs, notes)
 }
